@@ -48,9 +48,9 @@ def collect_verdicts(ctx: Ctx, crash_is_note: bool = False) -> dict:
     return out
 
 
-def collect_e5(ctx: Ctx) -> dict:
+def collect_e5(ctx: Ctx, prefix: str = "e5report") -> dict:
     out = {"unsupported_programs": {}, "paths_outside": {}, "programs": 0, "accepted": 0}
-    for f in sorted(glob.glob(os.path.join(ctx.workdir, "e5report_*.json"))):
+    for f in sorted(glob.glob(os.path.join(ctx.workdir, prefix + "_*.json"))):
         r = json.load(open(f))
         out["unsupported_programs"].update(r["unsupported"])
         for k, v in r["paths_outside"].items():
